@@ -70,4 +70,12 @@ def fieldsOnly : Path → Bool
   | .field _ :: r => fieldsOnly r
   | .index _ :: _ => false
 
+/-- inside the class `D_shift`: `p = [-k]` prepends to the top-level array `v` (`k > len`) and
+    `q = [-j]` names an existing element from the end (`j ≤ len`). -/
+def shiftNeg (v : Value) (p q : Path) : Bool :=
+  match v, p, q with
+  | .arr a, [.index i], [.index j] =>
+    decide (i < 0) && decide ((a.length : Int) < -i) && decide (j < 0) && decide (-j ≤ (a.length : Int))
+  | _, _, _ => false
+
 end C18
